@@ -257,7 +257,7 @@ async def reassembly(loop: vloop.VirtualLoop, ctx, trial: int) -> None:
         z = zones[zi]
         t += 1
         line = "045 " + rp_frame(z["idx"], k, len(z["frags"]), z["frags"][k - 1], z["kind"] == "dhw")
-        lines.append(line[4:60])
+        lines.append(line[4:])
         pkt = Packet.from_port(vloop.EPOCH.replace(microsecond=t * 1000), line)
         gwy._protocol.pkt_received(pkt)
         await vloop.drain(loop, 4)
@@ -282,7 +282,7 @@ async def reassembly(loop: vloop.VirtualLoop, ctx, trial: int) -> None:
             ctx.violate(
                 "C17|reassembly|different-schedule",
                 "after receiving the fragment packets (in some order, with repeats) the zone reports a schedule other than the one that was encoded",
-                {"zone": z["idx"], "kind": z["kind"], "history": lines[:12], "fragments": len(z["frags"]), "zones": len(zones)},
+                {"zone": z["idx"], "kind": z["kind"], "history": lines[:40], "fragments": len(z["frags"]), "zones": len(zones)},
             )
     # second phase: the schedule is edited on the controller (usually: same number of fragments) and the
     # fragments of the new one are overheard in some order with repeats - the zone must end with the new
@@ -305,9 +305,11 @@ async def reassembly(loop: vloop.VirtualLoop, ctx, trial: int) -> None:
             rng.shuffle(order)
             if rng.random() < 0.5:
                 order.insert(rng.randrange(len(order) + 1), rng.randint(1, len(frags2)))
+            lines2 = []
             for k in order:
                 t += 1
                 line = "045 " + rp_frame(z["idx"], k, len(frags2), frags2[k - 1], z["kind"] == "dhw")
+                lines2.append(line)
                 gwy._protocol.pkt_received(Packet.from_port(vloop.EPOCH.replace(microsecond=t * 1000), line))
                 await vloop.drain(loop, 4)
             await vloop.drain(loop)
@@ -320,13 +322,14 @@ async def reassembly(loop: vloop.VirtualLoop, ctx, trial: int) -> None:
                 ctx.violate(
                     "C17|reassembly|stale-schedule-after-new-fragments" if stale else "C17|reassembly|different-schedule",
                     "after all fragment packets of an edited schedule were received the zone still reports the earlier schedule" if stale else "after receiving the fragment packets of an edited schedule the zone reports a schedule that is neither",
-                    {"zone": z["idx"], "kind": z["kind"], "fragments_before": len(z["frags"]), "fragments_after": len(frags2), "order": order},
+                    {"zone": z["idx"], "kind": z["kind"], "fragments_before": len(z["frags"]), "fragments_after": len(frags2), "order": order, "trial": trial,
+                     "first_phase": [ln for ln in lines if " 0404 " in ln][:40], "second_phase": lines2},
                 )
     for u in loop.unhandled:
         ctx.info.setdefault("loop_unhandled", []).append(f"{u['type']}@{u['where']}")
     await gwy.stop()
     if trial < 1:
-        ctx.sample({"history": lines[:6], "zones": [(z["idx"], len(z["frags"]), z["enc"]) for z in zones]})
+        ctx.sample({"history": [ln[:70] for ln in lines[:6]], "zones": [(z["idx"], len(z["frags"]), z["enc"]) for z in zones]})
 
 
 def run(ctx) -> None:
